@@ -101,3 +101,43 @@ for tag, hty, hreq in (("no_height", ("enum", [None]), []),
         witnesses=[w for w in CB_WIT if (tag == "no_height") == (w["block_height"] is None)
                    and (w["block_height"] is None or (tag == "height_0_16") == (w["block_height"] <= 16))],
     ))
+
+# merkle_root: proved for every list length - no IndexError (every level is padded to an even length before it is
+# paired), termination (the level shrinks), result is a 32-byte string.  The functional equality with spec.block.merkle
+# needs list extensionality over (Seq (Seq Int)) in the outer 'preserve' step, which stayed undecided in z3 and cvc5
+# within budget here; it is covered by a BOUNDED stand-in instead (every list length 1..300: the tree shape depends
+# only on the length), reported under bounded_standins and never counted as proved.
+MERKLE_OUTER = Loop(
+    invariant=["len(row) >= 1", "forall(lambda j: len(row[j]) == 32, 0, len(row))"],
+    decreases="len(row)",
+    types={"row": "list:bytes", "branches": "list:bytes"},
+)
+MERKLE_INNER = Loop(
+    invariant=["len(branches) == _k", "len(row) % 2 == 0", "len(row) >= 2",
+               "forall(lambda j: len(branches[j]) == 32, 0, _k)"],
+    types={"branches": "list:bytes"},
+)
+
+
+def _merkle_lengths():
+    for n in range(1, 301):
+        yield {"txns": [n.to_bytes(2, "big") + bytes([i % 256, i // 256]) * 15 for i in range(n)]}
+
+
+register(fn_contract(
+    "C15.merkle_root", P, "bits.blockchain.merkle_root", {"txns": "list:bytes:32"},
+    requires=["len(txns) >= 1"],
+    cases=[Case("ok", ensures={"is_hash": "len(result) == 32"})],
+    loops={("bits.blockchain.merkle_root", 1): MERKLE_OUTER, ("bits.blockchain.merkle_root", 2): MERKLE_INNER},
+    options={"native_gen": lambda rng: {"txns": [bytes(rng.getrandbits(8) for _ in range(32)) for _ in range(rng.choice([1, 2, 3, 4, 5, 6, 7, 8, 9, 11, 12, 13, 17, 31, 33]))]}},
+    witnesses=[{"txns": [bytes([i]) * 32 for i in range(n)]} for n in (1, 2, 3, 4, 5, 6, 7, 9, 11)],
+))
+
+register(Theorem(
+    "C15.merkle_root.equals_spec", P, params={"txns": "list:bytes:32"}, requires=["len(txns) >= 1"],
+    body="bits.blockchain.merkle_root(txns)",
+    cases=[Case("ok", ensures={"root": "result == spec.block.merkle(txns)"})],
+    options={"bounded_only": True, "bounded_inputs": _merkle_lengths,
+             "bound": "every list length 1..300 with pairwise distinct 32-byte ids (exhaustive over lengths in that range)"},
+    fuc=["bits.blockchain.merkle_root"],
+))
